@@ -379,6 +379,8 @@ def keycell(rng, kind):
         return rng.choice([1, 2.0, {'$nan': rng.randrange(1000)}, {'$nan': 'np'}, {'$nan': rng.randrange(3)}])
     if kind == 'none':
         return rng.choice([None, 1, 'x'])
+    if kind == 'inf':         # infinities of both signs among ordinary numbers (no NaN in the column)
+        return rng.choice([0, 1, 2.5, {'$inf': -1}, {'$inf': 1}, 2, {'$inf': -1}, -3])
     if kind == 'npfloat':     # numpy float64 scalars (cells taken from an array) next to python numbers of the same value
         return rng.choice([{'$np': ['float64', 1.0]}, 1, 1.0, {'$np': ['float64', 2.5]}, 2.5, 2, {'$np': ['float64', 2.0]}, {'$np': ['float64', {'$nan': rng.randrange(50)}]}, {'$nan': rng.randrange(50)}])
     if kind == 'bigint':
@@ -394,7 +396,7 @@ def keycell(rng, kind):
 
 def gen_case(rng, maxrows):
     nk = rng.choice([0, 1, 1, 1, 2, 2, 3])
-    kinds = [rng.choice(['int', 'str', 'num', 'nan', 'none', 'dt', 'mixed', 'mixed', 'bigint', 'npfloat', 'pdts']) for _ in range(nk)]
+    kinds = [rng.choice(['int', 'str', 'num', 'nan', 'none', 'dt', 'mixed', 'mixed', 'bigint', 'npfloat', 'pdts', 'inf']) for _ in range(nk)]
     nl = rng.choice([0, 1, 2, 3, 4, 5, 6, maxrows])
     nr = rng.choice([0, 1, 2, 3, 4, 5, 6, maxrows])
     style = rng.choice(['implicit', 'same', 'same', 'diff', 'diff', 'lfun', 'rfun'])
